@@ -252,6 +252,10 @@ func (e *Evaluator) runHook(fn *ssa.Function, fr *frame, hook func(*ssa.Call, an
 			if u == nil {
 				elems, ok := strSlice(lp.Over)
 				if !ok {
+					// a package-level list of constants that is only ever read
+					elems, ok = model.ConstSliceOf(e.P, lp.Over)
+				}
+				if !ok {
 					return nil, fmt.Errorf("%s: loop over a non-constant list in policy construction code", fn.Name())
 				}
 				u = &unroll{l: lp, elems: elems}
